@@ -36,13 +36,15 @@ func (f *FileEnt) decref() int {
 	f.Lock()
 	f.nref--
 	n := f.nref
+	var orphans map[string]*FileEnt
+	if n == 0 && f.children != nil { // trigger child deletion
+		orphans = f.children
+		f.children = nil
+	}
 	f.Unlock()
 
-	if n == 0 && f.children != nil { // trigger child deletion
-		for _, c := range(f.children) {
-			c.decref()
-		}
-		f.children = nil
+	for _, c := range orphans {
+		c.decref()
 	}
 	return n
 }
@@ -72,12 +74,11 @@ func (f *FileEnt) link_child(name string, c *FileEnt) error {
 // longer linked to c (c has already been removed, and the name may by now
 // belong to a different file).
 func (f *FileEnt) unlink_child(name string, c *FileEnt) error {
+	f.Lock()
+	defer f.Unlock()
 	if f.children == nil {
 		return errors.New("not a directory.")
 	}
-
-	f.Lock()
-	defer f.Unlock()
 	cur, found := f.children[name]
 	if !found || cur != c {
 		return errors.New("not found")
